@@ -83,3 +83,56 @@ def reason_tag(cv) -> str:
     if end["kind"] == "fail":
         return "stop:" + str(oracles.reported_reason(cv))
     return "end:" + end["kind"] + (":" + end.get("type", "") if end["kind"] == "propagate" else "")
+
+
+RECONF_ENTRIES = [e for e in RETRY_ENTRIES] + ["Retry.from_config.call", "AsyncRetryPolicy.from_config.execute"]
+
+
+def reconfigured_case(profile: dict, keys: list):
+    """Two calls on one policy object; before the second the caller edits public attributes."""
+
+    @st.composite
+    def build(draw):
+        p = dict(profile)
+        p["multi_call"] = (2, 2)
+        p["budget"] = 0.0
+        case = draw(gen.retry_case(p))
+        spec: dict = {}
+        for k in draw(st.lists(st.sampled_from(keys), min_size=1, max_size=len(keys), unique=True)):
+            if k == "deadline":
+                spec[k] = draw(st.one_of(st.integers(1, 64), st.integers(1, 512)))
+            elif k == "max_attempts":
+                spec[k] = draw(st.sampled_from([1, 2, 3, 4, 6, 8]))
+            elif k == "max_unknown":
+                spec[k] = draw(st.sampled_from([None, 0, 1, 3]))
+            elif k == "per_class":
+                spec[k] = draw(st.dictionaries(st.sampled_from(gen.RETRYABLE), st.sampled_from([0, 1, 2, 3]), max_size=2))
+        case["calls"][1]["reconfigure"] = spec
+        case["calls"][1].pop("advance", None)
+        case["entry"] = draw(st.sampled_from(RECONF_ENTRIES))
+        return case
+
+    return build()
+
+
+def check_reconfigured(case: dict, prefix: str) -> Verdict:
+    """The second call must behave exactly like the same call on a fresh object built with the new settings."""
+    v = Verdict()
+    env, cvs = run(case)
+    spec = case["calls"][1]["reconfigure"]
+    cfg2 = dict(case["cfg"])
+    for k, val in spec.items():
+        cfg2[k] = val
+    only = {k: x for k, x in case["calls"][1].items() if k not in ("reconfigure", "advance")}
+    if only.get("handler") is None and any(c.get("handler") is not None for c in case["calls"]):
+        only["handler"] = []
+    fresh = {**case, "cfg": cfg2, "calls": [only]}
+    env2, cvs2 = run(fresh)
+    v.evals += 1
+    a, b = projection(cvs[1]), projection(cvs2[0])
+    if a != b:
+        i = next((i for i, (x, y) in enumerate(zip(a, b)) if x != y), min(len(a), len(b)))
+        v.fail(f"{prefix}:reconfigured:{'+'.join(sorted(spec))}", f"{case['entry']}: after the caller set {spec} on a used policy object the next call differs from a fresh object with those settings at event {i}: {a[i:i+2]} vs {b[i:i+2]}")
+    v.nontrivial = any(oracles.failed(case, att) for att in cvs[0].atts) and any(oracles.failed(case, att) for att in cvs[1].atts)
+    v.tag("reconfigured:" + "+".join(sorted(spec)), "entry:" + case["entry"])
+    return v
